@@ -111,7 +111,7 @@ func (wd *vWorld) sync(b *stub.Block) {
 func C13_Worker() {
 	me := env.Param("me")
 	k := env.Param("events")
-	wd := newWorldStopped(me, equalWeights(4))
+	wd := newWorldStopped(me, paramWeights())
 	n := wd.n
 	n.commitErr = false
 	p0 := env.NondetU64("p0")
@@ -184,7 +184,9 @@ func C14_Sync() {
 		// no view-0 PREPREPARE after a sync above height 1
 		for _, s := range n.comm.Out[out:] {
 			if pp, ok := s.Msg.(*interfaces.PreprepareMessage); ok {
-				env.Assert("C14.no_first_leader_proposal", env.Or(pp.View() != 0, pp.BlockHeight() <= 1))
+				// (a sync of exactly the block being committed is overtaken by the commit itself: the node then enters
+			// height 2 through its own commit and may lead it)
+			env.Assert("C14.no_first_leader_proposal", env.Or(pp.View() != 0, env.Or(pp.BlockHeight() <= 1, env.And(b == 1, pp.BlockHeight() == 2))))
 			}
 		}
 		env.Reach("C14.synced")
@@ -294,6 +296,19 @@ func C13_FutureRound() {
 	env.Assert("C13.future.height1_committed", len(n.commits) >= 1)
 	if full && len(n.commits) == 2 {
 		env.Reach("C13.future.committed_from_cache")
+		// the node is at height 3 now: a proposal of height 3 is answered by the term of height 3
+		if n.m.state.Height() == 3 && me != 0 {
+			agg2 := stub.GroupSeedSig(2, randomseed.RandomSeedToBytes(randomseed.CalculateRandomSeed(agg1)))
+			net3 := newVNet(wd.reg, wd.net.committee, vInstance, (&protocol.BlockProofBuilder{RandomSeedSignature: agg2}).Build().Raw())
+			out := len(n.comm.Out)
+			ev := len(n.st.Events)
+			n.deliver(net3.ppm(0, 3, 0, &stub.Block{H: 3, Tag: 0x25, ProposalOK: true}).ToConsensusRawMessage())
+			env.Assert("C17.next_height_message_handled_by_its_term", len(n.comm.Out) > out)
+			for _, e := range n.st.Events[ev:] {
+				env.Assert("C17.only_own_height", e.Msg.BlockHeight() == e.StateHeight)
+			}
+			wd.checkHeightIsAnnouncedRound()
+		}
 	}
 }
 
@@ -308,7 +323,7 @@ func C14_SyncDuringCommit() {
 	n := wd.n
 	n.commitErr = false
 	b := env.NondetU64("sync_h")
-	env.Assume(b >= 2 && b < 1<<62)
+	env.Assume(b >= 1 && b < 1<<62) // including a sync of exactly the block being committed
 	syncBlock := &stub.Block{H: primitives.BlockHeight(b)}
 	parked := -1
 	ctxSeen := false
@@ -331,6 +346,7 @@ func C14_SyncDuringCommit() {
 	env.Assert("C14.setup.committed", len(n.commits) == 1)
 	env.Assert("C14.setup.mainloop_parked", parked == 2)
 	env.Assert("C15.commit_ctx_released_by_sync", ctxSeen)
+	env.Assert("C14.commit_callback_released_by_sync", ctxSeen)
 	// the window before the worker takes the queued sync: the state's height (which the filter uses to route
 	// messages to the current term) is the height of the last announced round, and a message of the next height
 	// that arrives now is not handled by the term of height 1
@@ -353,7 +369,9 @@ func C14_SyncDuringCommit() {
 	env.Assert("C14.sync_takes_effect", uint64(n.m.state.Height()) == b+1)
 	for _, s := range n.comm.Out[out0:] {
 		if pp, ok := s.Msg.(*interfaces.PreprepareMessage); ok {
-			env.Assert("C14.no_first_leader_proposal", env.Or(pp.View() != 0, pp.BlockHeight() <= 1))
+			// (a sync of exactly the block being committed is overtaken by the commit itself: the node then enters
+			// height 2 through its own commit and may lead it)
+			env.Assert("C14.no_first_leader_proposal", env.Or(pp.View() != 0, env.Or(pp.BlockHeight() <= 1, env.And(b == 1, pp.BlockHeight() == 2))))
 		}
 	}
 	for _, r := range n.rounds {
@@ -384,12 +402,13 @@ func C13_CommitThenPrepared() {
 	wd := newWorld(me, paramWeights())
 	n, net := wd.n, wd.net
 	n.commitErr = env.NondetBool("commit_callback_fails")
+	n.commitPanics = env.ParamOr("commit_panics", 0) == 1 // the callback fails by panicking (recovered by the worker's handler)
 	g := &stub.Block{H: 1, Tag: 0x21, ProposalOK: true}
 	hash := stub.HashOf(g)
 	early := env.NondetBool("view1_commits_arrive_early")
 	commits1 := func() {
 		for _, i := range othersOf(me) {
-			n.deliver(net.cm(i, 1, 1, hash).ToConsensusRawMessage())
+			n.m.worker.handleRawMessage(net.cm(i, 1, 1, hash).ToConsensusRawMessage())
 		}
 	}
 	n.deliver(net.ppm(0, 1, 0, g).ToConsensusRawMessage())
@@ -400,7 +419,7 @@ func C13_CommitThenPrepared() {
 		commits1()
 	}
 	for _, i := range othersOf(me) {
-		n.deliver(net.cm(i, 1, 0, hash).ToConsensusRawMessage())
+		n.m.worker.handleRawMessage(net.cm(i, 1, 0, hash).ToConsensusRawMessage()) // the worker's entry point: it recovers a panicking callback
 	}
 	env.Assert("C13.ctp.committed_in_view0", len(n.commits) == 1)
 	if n.m.state.Height() != 1 {
@@ -425,6 +444,20 @@ func C13_CommitThenPrepared() {
 	}
 	if v, ok := wd.termPrepared(); ok && v == 1 {
 		env.Reach("C13.ctp.prepared_in_view1")
+	}
+	// C09: the node then leaves view 1 by timeout: it holds a prepared certificate for view 1 (proposal + PREPAREs of
+	// quorum weight), so its vote carries that proof and the block, whether or not the term has committed already
+	from := len(n.comm.Out)
+	n.timeout()
+	if vote := lastVote(n, from); vote != nil {
+		proof := vote.Content().SignedHeader().PreparedProof()
+		has := proof != nil && len(proof.Raw()) > 0
+		env.Assert("C09.vc.has_proof_iff_prepared", has)
+		if has {
+			env.Assert("C09.vc.proof_view_is_latest_prepared", proof.PreprepareBlockRef().View() == 1)
+			env.Assert("C09.vc.block", stub.Commits(vote.Block(), proof.PreprepareBlockRef().BlockHash()))
+		}
+		env.Reach("C09.ctp.voted")
 	}
 }
 
